@@ -40,7 +40,8 @@ def block_0(
             (
                 0,
                 address_type.to_knx() | frame_format,
-                (tpci_int << 2) + _APCI_SEC_HIGH,
+                # the octet as it is on the wire - TPCI.to_knx() is already in position
+                tpci_int | _APCI_SEC_HIGH,
                 _APCI_SEC_LOW,
                 0,
                 payload_length,
